@@ -16,6 +16,7 @@ pub struct C09 {
 }
 
 const KINDS_FULL: u8 = 7;
+const INLINE_ENTRY_KINDS: u64 = 14 * 4;
 
 fn paths(alpha: &[&'static str], maxlen: usize) -> Vec<Vec<&'static str>> {
     let mut out: Vec<Vec<&'static str>> = Vec::new();
@@ -147,6 +148,11 @@ impl Check for C09 {
         if tier == Tier::Thorough {
             w.push(("core-seq4".to_string(), c * c * c * c));
         }
+        // definitions inside one inline table: 56 entry kinds (14 paths x 4 values), every table of
+        // up to three entries; and random deeper ones, with a statement after them half of the time
+        let e = INLINE_ENTRY_KINDS;
+        w.push(("inline-exhaustive".to_string(), e + e * e + e * e * e));
+        w.push(("inline-random".to_string(), if tier == Tier::Quick { 150_000 } else { 3_000_000 }));
         w
     }
     fn run(&mut self, ctx: &mut Ctx, workload: &str, index: u64, rng: &mut Rng) {
@@ -188,6 +194,75 @@ impl Check for C09 {
                     text.push('\n');
                 }
                 nst = len;
+            }
+            "inline-exhaustive" => {
+                let e = INLINE_ENTRY_KINDS;
+                let (len, mut i) = if index < e {
+                    (1, index)
+                } else if index < e + e * e {
+                    (2, index - e)
+                } else {
+                    (3, index - e - e * e)
+                };
+                let p2 = paths(&["a", "b"], 3);
+                let mut entries = Vec::new();
+                for _ in 0..len {
+                    let k = (i % e) as usize;
+                    i /= e;
+                    let path: Vec<String> = p2[k / 4].iter().map(|s| spell(rng, s, variant)).collect();
+                    let val = ["1", "{}", "{a = 1}", "{a.b = 1}"][k % 4];
+                    entries.push(format!("{} = {val}", path.join(".")));
+                }
+                entries.reverse();
+                text = format!("t = {{ {} }}\n", entries.join(", "));
+                nst = len;
+                ctx.count("exhaustive/inline");
+            }
+            "inline-random" => {
+                fn table(rng: &mut Rng, depth: usize, variant: u8) -> String {
+                    let alpha = ["a", "b", "c"];
+                    let n = 1 + rng.below(4);
+                    let mut es = Vec::new();
+                    for _ in 0..n {
+                        let pl = 1 + rng.below(4);
+                        let mut p: Vec<String> = Vec::new();
+                        for _ in 0..pl {
+                            let seg = *rng.pick(&alpha);
+                            p.push(spell(rng, seg, variant));
+                        }
+                        let v = match rng.below(8) {
+                            0 | 1 if depth < 3 => table(rng, depth + 1, variant),
+                            2 => "{}".to_string(),
+                            3 => "[]".to_string(),
+                            4 if depth < 3 => format!("[{}]", table(rng, depth + 1, variant)),
+                            _ => "1".to_string(),
+                        };
+                        es.push(format!("{} = {v}", p.join(if variant == 3 && rng.coin() { " . " } else { "." })));
+                    }
+                    format!("{{ {} }}", es.join(", "))
+                }
+                let head = match rng.below(4) {
+                    0 => "t".to_string(),
+                    1 => "t.a".to_string(),
+                    2 => "a".to_string(),
+                    _ => "t".to_string(),
+                };
+                if rng.chance(1, 4) {
+                    text.push_str("[x]\n");
+                }
+                text.push_str(&format!("{head} = {}\n", table(rng, 0, variant)));
+                nst = 2;
+                if rng.coin() {
+                    // a later statement that touches the (frozen) inline table or a neighbour
+                    let alpha = ["a", "b", "c", "t"];
+                    let pl = 1 + rng.below(3);
+                    let p: Vec<&str> = (0..pl).map(|_| *rng.pick(&alpha)).collect();
+                    let kind = rng.below(3) as u8;
+                    let mut full = vec![if rng.coin() { "t" } else { "a" }];
+                    full.extend(p);
+                    text.push_str(&stmt_text(rng, &full, kind, variant));
+                    text.push('\n');
+                }
             }
             other => {
                 ctx.inconclusive(format!("unknown workload {other}"));
